@@ -89,6 +89,7 @@ pub fn gen(seed: u64, cases: usize, flavour: &str, path: &str) {
     let mut g = Gen::new(seed, path);
     let thorough = flavour.contains("thorough");
     let batchy = flavour.contains("batch");
+    let dup = flavour.contains("dup"); // sizes from a tiny set: orders equal but for price and id
     // grid chosen so that limit*1.1 / limit*0.9 boundaries and trigger equalities are hit
     let grid = |r: &mut Rng| (r.below(40) + 1) as f64 * 0.25;
     for _ in 0..cases {
@@ -124,7 +125,7 @@ pub fn gen(seed: u64, cases: usize, flavour: &str, path: &str) {
                     };
                     let asset = if g.rng.chance(1, 15) { 3 } else { g.rng.below(3) }; // asset 3 is never quoted
                     qty += 1;
-                    let sz = qty as f64 + if g.rng.chance(1, 5) { 0.5 } else { 0.0 };
+                    let sz = if dup { (1 + g.rng.below(3)) as f64 } else { qty as f64 + if g.rng.chance(1, 5) { 0.5 } else { 0.0 } };
                     let px = grid(&mut g.rng);
                     let kind = match g.rng.below(4) {
                         0 => "L:ioc".to_string(),
